@@ -184,6 +184,7 @@ type Ctx struct {
 	depth      int
 	noInv      bool
 	invAdded   map[*ssa.Phi]bool
+	neq        [][2]lin.Form
 }
 
 func (fi *FuncInfo) newCtx() *Ctx {
@@ -202,6 +203,7 @@ func (fi *FuncInfo) CtxAt(b *ssa.BasicBlock) *Ctx {
 // CtxEdge builds the facts that hold when the edge from→to is taken.
 func (fi *FuncInfo) CtxEdge(from, to *ssa.BasicBlock) *Ctx {
 	c := fi.CtxAt(from)
+	c.successIn(from, nil)
 	c.addEdge(from, to)
 	return c
 }
@@ -228,6 +230,7 @@ func (c *Ctx) addDominating(b *ssa.BasicBlock) {
 		if d == nil {
 			continue
 		}
+		c.successIn(d, nil)
 		if len(x.Preds) == 1 && x.Preds[0] == d {
 			c.addEdge(d, x)
 			continue
@@ -374,6 +377,7 @@ func (c *Ctx) lin1(v ssa.Value) lin.Form {
 		}
 		o := c.opaque(v)
 		c.callFacts(x, o)
+		c.resultFacts(x, 0, o)
 		return o
 	case *ssa.UnOp:
 		switch x.Op {
@@ -404,6 +408,9 @@ func (c *Ctx) lin1(v ssa.Value) lin.Form {
 		return o
 	case *ssa.Extract:
 		o := c.opaque(v)
+		if call, ok := x.Tuple.(*ssa.Call); ok {
+			c.resultFacts(call, x.Index, o)
+		}
 		return o
 	case *ssa.Parameter:
 		o := c.opaque(v)
@@ -476,8 +483,12 @@ func (c *Ctx) linBinOp(x *ssa.BinOp) lin.Form {
 			}
 		}
 		a, b := c.Lin(x.X), c.Lin(x.Y)
-		if c.Entails(lin.GE0(a)) && c.Entails(lin.GE0(b)) {
-			c.add(lin.GE0(o), lin.LE(o, a), lin.LE(o, b))
+		// two's complement: if either operand is non-negative the result lies in [0, that operand]
+		if c.Entails(lin.GE0(a)) {
+			c.add(lin.GE0(o), lin.LE(o, a))
+		}
+		if c.Entails(lin.GE0(b)) {
+			c.add(lin.GE0(o), lin.LE(o, b))
 		}
 		return o
 	case token.OR, token.XOR:
@@ -663,6 +674,7 @@ func (c *Ctx) assume(cond ssa.Value, truth bool) {
 			case token.EQL:
 				c.add(lin.EQ(a, b)...)
 			case token.NEQ:
+				c.neq = append(c.neq, [2]lin.Form{a, b})
 				// a != b: usable when one side is already bounded by the other
 				if c.Entails(lin.GE(a, b)) {
 					c.add(lin.GT(a, b))
@@ -743,25 +755,40 @@ func (c *Ctx) phiJoin(g lin.Con, depth int) bool {
 		return false
 	}
 	fi := c.FI
+	// candidate φ terms: those in the goal, then those in facts connected to it
+	var cands []lin.Term
+	seen := map[lin.Term]bool{}
+	addT := func(t lin.Term) {
+		if !seen[t] {
+			seen[t] = true
+			if _, ok := fi.terms[t].v.(*ssa.Phi); ok {
+				cands = append(cands, t)
+			}
+		}
+	}
 	for _, t := range g.F.Terms() {
+		addT(t)
+	}
+	if depth == 0 {
+		for _, f := range c.Facts {
+			hit := false
+			for t := range f.F.Coef {
+				if _, inGoal := g.F.Coef[t]; inGoal {
+					hit = true
+				}
+			}
+			if hit {
+				for _, t := range f.F.Terms() {
+					addT(t)
+				}
+			}
+		}
+	}
+	for _, t := range cands {
 		ti := fi.terms[t]
-		phi, ok := ti.v.(*ssa.Phi)
-		if !ok {
-			continue
-		}
+		phi := ti.v.(*ssa.Phi)
 		pb := phi.Block()
-		// every other term must be defined strictly above the φ's block
-		okTerms := true
-		for _, t2 := range g.F.Terms() {
-			if t2 == t {
-				continue
-			}
-			if !definedAbove(fi.terms[t2].v, pb) {
-				okTerms = false
-				break
-			}
-		}
-		if !okTerms {
+		if c.Block == nil || !(pb == c.Block || pb.Dominates(c.Block)) {
 			continue
 		}
 		all := true
@@ -778,11 +805,34 @@ func (c *Ctx) phiJoin(g lin.Con, depth int) bool {
 				all = false
 				break
 			}
-			ng := substitute(g, t, repl)
-			// make sure the remaining terms are introduced in ec
-			for _, t2 := range ng.F.Terms() {
-				ec.reintroduce(t2)
+			// facts at the obligation point, specialised to this edge
+			for _, f := range c.Facts {
+				if _, has := f.F.Coef[t]; has {
+					ec.add(substitute(f, t, repl))
+				} else {
+					ec.add(f)
+				}
 			}
+			vacuous := false
+			for _, ne := range c.neq {
+				d := ne[0].Sub(ne[1])
+				if k, has := d.Coef[t]; has {
+					dd := d.Clone()
+					delete(dd.Coef, t)
+					d = dd.Add(repl.Scale(k))
+				}
+				if kv, isK := d.ConstVal(); isK && kv.Sign() == 0 {
+					vacuous = true
+				}
+			}
+			if vacuous || lin.Infeasible(ec.Facts, fmLimit) {
+				continue
+			}
+			ng := g
+			if _, has := g.F.Coef[t]; has {
+				ng = substitute(g, t, repl)
+			}
+			ec.Block = nil // no further joins through facts of another point
 			if !(ec.Entails(ng) || ec.phiJoin(ng, depth+1)) {
 				all = false
 				break
